@@ -9,6 +9,10 @@ replace google.golang.org/grpc => google.golang.org/grpc v1.26.0
 replace github.com/coreos/bbolt => go.etcd.io/bbolt v1.3.5
 
 require (
+	github.com/andybalholm/brotli v1.0.3
+	github.com/golang/snappy v0.0.3
+	github.com/klauspost/compress v1.13.1
+	github.com/pierrec/lz4 v2.6.1+incompatible
 	github.com/vicanso/elton v1.4.2
 	github.com/vicanso/pike v0.0.0-00010101000000-000000000000
 	github.com/vicanso/upstream v0.2.0
@@ -16,7 +20,6 @@ require (
 
 require (
 	github.com/DataDog/zstd v1.4.1 // indirect
-	github.com/andybalholm/brotli v1.0.3 // indirect
 	github.com/aws/aws-sdk-go v1.34.28 // indirect
 	github.com/cespare/xxhash v1.1.0 // indirect
 	github.com/cespare/xxhash/v2 v2.1.1 // indirect
@@ -38,13 +41,10 @@ require (
 	github.com/gogo/protobuf v1.3.2 // indirect
 	github.com/golang/groupcache v0.0.0-20210331224755-41bb18bfe9da // indirect
 	github.com/golang/protobuf v1.4.2 // indirect
-	github.com/golang/snappy v0.0.3 // indirect
 	github.com/google/flatbuffers v1.12.0 // indirect
 	github.com/google/uuid v1.2.0 // indirect
 	github.com/jmespath/go-jmespath v0.4.0 // indirect
-	github.com/klauspost/compress v1.13.1 // indirect
 	github.com/leodido/go-urn v1.2.0 // indirect
-	github.com/pierrec/lz4 v2.6.1+incompatible // indirect
 	github.com/pkg/errors v0.9.1 // indirect
 	github.com/shirou/gopsutil/v3 v3.21.5 // indirect
 	github.com/tidwall/gjson v1.8.1 // indirect
